@@ -45,14 +45,17 @@ var (
 
 		// Remove basic rules from abstractions/base
 		// (the path the record is about, from its first character: not a longer
-		// path, another field or a path that merely contains one of these)
-		`(?m)^.* name="/etc/[^/"]+\.so[^"]*".*$`, ``,
-		`(?m)^.* name="/usr/(lib|lib32|lib64|libexec)/[^/"]+\.so[^"]*".*$`, ``,
-		`(?m)^.* name="/usr/(lib|lib32|lib64|libexec)/locale/[^"]*".*$`, ``,
-		`(?m)^.* name="/usr/share/locale[^/"]?/[^"]*".*$`, ``,
-		`(?m)^.* name="/usr/share/zoneinfo[^/"]?/[^"]*".*$`, ``,
-		`(?m)^.* name="/dev/(null|zero|full|log)".*$`, ``,
-		`(?m)^.* name="/dev/(u|)random".*$`, ``,
+		// path, another field or a path that merely contains one of these;
+		// and only for the accesses the abstraction grants on it: another one
+		// is not covered by it)
+		`(?m)^.* name="/etc/[^/"]+\.so[^"]*".* requested_mask="[mr]+".*$`, ``,
+		`(?m)^.* name="/usr/(lib|lib32|lib64|libexec)/[^/"]+\.so[^"]*".* requested_mask="[mr]+".*$`, ``,
+		`(?m)^.* name="/usr/(lib|lib32|lib64|libexec)/locale/[^"]*".* requested_mask="[mr]+".*$`, ``,
+		`(?m)^.* name="/usr/share/locale[^/"]?/[^"]*".* requested_mask="r".*$`, ``,
+		`(?m)^.* name="/usr/share/zoneinfo[^/"]?/[^"]*".* requested_mask="r".*$`, ``,
+		`(?m)^.* name="/dev/(null|zero|full)".* requested_mask="[rw]+".*$`, ``,
+		`(?m)^.* name="/dev/log".* requested_mask="w".*$`, ``,
+		`(?m)^.* name="/dev/(u|)random".* requested_mask="r".*$`, ``,
 	})
 	regResolveLogs = util.ToRegexRepl([]string{
 		// Resolve user variables
